@@ -50,8 +50,8 @@ def clause_a(facts, rep):
                 if ini is not None and (ini.get('k') in ('zeroinit', 'initlist')):
                     out.append('zeroed')
             for e in walk(s):
-                if e.get('k') == 'call' and e.get('cname') == 'setType':
-                    out.append('typed')
+                if e.get('k') == 'call' and (e.get('cname') == 'setType' or _sets_type(facts, e)):
+                    out.append('typed')      # directly or through a helper of the class that sets the type on all its paths
             return out
         M = Must(f, gen_stmt=gen_stmt)
         for bid, i, e in stores:
@@ -89,7 +89,41 @@ def clause_a(facts, rep):
     rep.require(m >= 5, 'C18.a: numeric setters found: %d' % m)
 
 
+def _sets_type(facts, call, depth=0):
+    """the callee (a method on the same object) calls setType on every path to its exit"""
+    g = facts.by_id.get(call.get('cid'))
+    ob = strip(call.get('obj')) if call.get('obj') is not None else None
+    if g is None or not g.blocks or depth > 2 or (ob is not None and ob.get('k') != 'this'):
+        return False
+    Mg = Must(g, gen_stmt=lambda s_: ['typed'] if any(x.get('k') == 'call' and (x.get('cname') == 'setType' or _sets_type(facts, x, depth + 1)) for x in walk(s_)) else [])
+    ex = Mg.IN.get(g.exit)
+    return ex is not None and 'typed' in ex
+
+
 def run_ctor(f, val):
+    """evaluate a numeric constructor for a concrete argument (sv/minterp.py; helpers of the class are interpreted):
+    returns (type set last, field stored)"""
+    from ..minterp import Interp, Unsupported, UndefinedBehaviour
+    got = {'typ': None, 'field': None}
+
+    def hook(e, args, env, members):
+        if e.get('k') == 'call' and e.get('cname') == 'setType' and args:
+            got['typ'] = args[-1]
+            return 0
+        return None
+    try:
+        it = Interp(f, f.facts, call_hook=hook, max_steps=2000)
+        r = it.run({f.params[0]['id']: val}, {})
+        for k_ in r[2]:
+            for nf in NUMF:
+                if k_ == nf or k_.endswith('.' + nf):
+                    got['field'] = nf
+        return got['typ'], got['field']
+    except (Unsupported, UndefinedBehaviour) as ex:
+        raise KeyError(str(ex))
+
+
+def _run_ctor_small(f, val):
     """evaluate a numeric constructor for a concrete argument: returns (type set, field stored)"""
     pid = f.params[0]['id']
     typ = None
